@@ -189,6 +189,48 @@ def check_pairing(ctx, rule, qual, fn, var, st, block, i, amount):
         if isinstance(nxt, (ast.For, ast.While)):
             break
     if guard is None:
+        # join-point accounting: the event sits in a branch of an if/else, every branch records what it emitted in one
+        # variable and the budget is reduced by that variable after the if/else
+        mod = ctx.repo.modules[qual.partition('::')[0]]
+        cur_block, cur = block, st
+        while guard is None:
+            owner = mod.parents.get(id(cur))
+            if not isinstance(owner, ast.If) or not any(x is cur for x in owner.body + owner.orelse):
+                break
+            gp = mod.parents.get(id(owner))
+            outer = None
+            for field in ('body', 'orelse', 'finalbody'):
+                lst = getattr(gp, field, None)
+                if isinstance(lst, list) and any(x is owner for x in lst):
+                    outer = lst
+            if outer is None:
+                break
+            j = [k for k, x in enumerate(outer) if x is owner][0]
+            for nxt in outer[j + 1:]:
+                if isinstance(nxt, ast.If) and is_truthy_guard(nxt.test, var):
+                    guard = nxt
+                    break
+                if isinstance(nxt, (ast.For, ast.While)):
+                    break
+            if guard is not None:
+                # which variable carries the emitted amount at the join?
+                decs = [U(s_.value) if isinstance(s_, ast.AugAssign) else U(s_.value.right) for s_ in guard.body
+                        if (isinstance(s_, ast.AugAssign) and U(s_.target) == var and isinstance(s_.op, ast.Sub))
+                        or (isinstance(s_, ast.Assign) and U(s_.targets[0]) == var and isinstance(s_.value, ast.BinOp)
+                            and isinstance(s_.value.op, ast.Sub) and U(s_.value.left) == var)]
+                v = decs[0] if decs else None
+                branch = owner.body if any(x is cur for x in owner.body) else owner.orelse
+                sets = [s_ for s_ in branch if isinstance(s_, ast.Assign) and len(s_.targets) == 1 and U(s_.targets[0]) == v]
+                if v is not None and amount == v:
+                    pass                                   # the event itself binds the amount variable
+                elif v is not None and len(sets) == 1 and U(sets[0].value) == str(amount):
+                    amount = v                             # branch records `v = <amount>`
+                    facts['amount'] = '%s (= %s in this branch)' % (v, U(sets[0].value))
+                else:
+                    guard = None
+                break
+            cur = owner
+    if guard is None:
         ctx.bad(rule, qual, 'no budget accounting after ' + U(st)[:70],
                 'after guesses are written the remaining budget must be reduced and tested; otherwise --limit N '
                 'writes more than N lines', facts, st)
